@@ -17,6 +17,7 @@ S11 cross-reference: resolved const definitions are visible to later ones (C12-K
 S13 the one-node re-typers check_or_constrain_* are only the leaf case of constrain_type (operands of an untyped compound expression are re-typed too)
 S14 inside a collection an unspecified number type is only re-typed in place to a number type of the same (32-bit) width
 S15 zero-sized types and empty arrays: no division by a type width, no trapping `element count - constant` in the lowering
+S16 a function whose parameters have no bits is refused before the circuit is built (`some input bit`)
 S12 the number type stored in a Range node (which the lowering sizes the elements with) follows the re-typing of the range
 """
 from .. import mir
@@ -706,5 +707,39 @@ def rule_s15(ctx):
     return res
 
 
+def rule_s16(ctx):
+    """`some input bit`: the two constant wires of every circuit are computed from the first input bit, so a function whose
+    parameters have no bits at all cannot be compiled to a valid circuit and has to be refused."""
+    res = RuleResult("S16", "a function without any input bit is refused with an error before the circuit is built")
+    f, body = C12._cwc(ctx)
+    news = [(b, t) for b, t in body.calls() if mir.last_seg(mir.callee(t) or "") == "new" and "CircuitBuilder" in (mir.callee(t) or "")]
+    if len(news) != 1:
+        raise AnchorMissing("S16: expected one CircuitBuilder::new in compile_with_constants")
+    nb, nt = news[0]
+    parties = {r for (r, p) in body.trace_operand(nt["args"][0])}
+    errs = {b for b, blk in enumerate(body.blocks) if not blk["cleanup"] for st in blk["stmts"]
+            if st["k"] == "assign" and st["place"]["l"] == 0 and st["rv"]["k"] == "aggregate" and st["rv"].get("variant") == "Err"}
+    guards = []
+    for b in range(body.n):
+        t = body.term(b)
+        if not t or t["k"] != "switch" or t["discr"]["k"] not in ("copy", "move") or not body.dominates(b, nb):
+            continue
+        src = {r for (r, p) in body.deep_sources(t["discr"], depth=3)}
+        if not (src & parties):
+            continue
+        # one edge must end in Err without building the circuit, the other one goes on
+        outs = [x for _, x in t["targets"]] + [t["otherwise"]]
+        refusing = [x for x in outs if body.path(x, errs, blocked={nb}) and not body.path(x, [nb])]
+        if refusing and any(body.path(x, [nb]) for x in outs):
+            guards.append(b)
+    if guards:
+        res.ok({"guard": "line %d" % body.term(guards[0])["sp"][1], "verdict": "a test over the registered party sizes dominates CircuitBuilder::new; its failing edge returns Err"})
+    else:
+        res.bad(Finding("S16", f["id"], "circuit built without any input bit",
+                        "no test over the registered input sizes lies before CircuitBuilder::new: `pub fn main(x: ()) -> bool { true }` (or `[u8; N]` with N = 0) compiles to a circuit whose "
+                        "constant gates refer to a non-existing input wire (validate(): InvalidGate / EmptyInputs)", nt["sp"]))
+    return res
+
+
 def run(ctx):
-    return ctx.run_rules([rule_s1, rule_s2, rule_s3, rule_s4, rule_s5, rule_s6, rule_s7, rule_s8, rule_s9, rule_s10, rule_s11, rule_s12, rule_s13, rule_s14, rule_s15])
+    return ctx.run_rules([rule_s1, rule_s2, rule_s3, rule_s4, rule_s5, rule_s6, rule_s7, rule_s8, rule_s9, rule_s10, rule_s11, rule_s12, rule_s13, rule_s14, rule_s15, rule_s16])
